@@ -11,6 +11,7 @@ import (
 	"sort"
 	"strconv"
 	"strings"
+	"sync"
 
 	"github.com/consensys/gnark-crypto/ecc"
 	"github.com/consensys/gnark-crypto/ecc/bn254/fr"
@@ -101,6 +102,9 @@ func (c *C12) Run(x *engine.Ctx) *engine.Violation {
 	}
 	if t.Chance(1, 5) {
 		return c.historyPair(x, mode)
+	}
+	if t.Chance(1, 5) {
+		return c.overlappingBuilds(x)
 	}
 	depth := 1 + t.Draw(8)
 	if t.Chance(1, 5) {
@@ -489,6 +493,79 @@ func (c *C12) depthGuard(x *engine.Ctx) *engine.Violation {
 	// depth 31 is still supported
 	if _, err := prover.BuildR1CSDeletion(31, 1); err != nil {
 		return engine.Violatef("C12/supported-depth-refused", "BuildR1CSDeletion(31,1): %v", err)
+	}
+	return nil
+}
+
+// overlappingBuilds: "every run ... under any scheduling" includes builds that overlap in time inside one process
+// (a service that sets up or imports several systems at start-up, a test binary building circuits in parallel).
+// 2..4 builders compile small circuits of tape-chosen modes and dimensions at the same moment (real goroutines
+// released by one barrier: the interleaving is the Go scheduler's, uncontrolled); each result must hash to what
+// the same dimensions gave when built alone, before.
+func (c *C12) overlappingBuilds(x *engine.Ctx) *engine.Violation {
+	t := x.T
+	n := 2 + t.Draw(3)
+	type job struct {
+		mode         string
+		depth, batch int
+		ref, got     string
+		err          error
+		pub          int
+	}
+	jobs := make([]*job, n)
+	for i := range jobs {
+		j := &job{mode: rollup.Insertion, depth: 2 + t.Draw(6), batch: 1 + t.Draw(3)}
+		if t.Chance(1, 2) {
+			j.mode = rollup.Deletion
+		}
+		if i > 0 && t.Chance(1, 3) {
+			*j = job{mode: jobs[0].mode, depth: jobs[0].depth, batch: jobs[0].batch} // the very same circuit twice at once
+		}
+		cs, err := buildCS(j.mode, j.depth, j.batch)
+		if err != nil {
+			return engine.Violatef("C12/r1cs-path-fails", "%s/d%d/b%d: %v", j.mode, j.depth, j.batch, err)
+		}
+		j.ref = csHash(cs)
+		jobs[i] = j
+	}
+	start := make(chan struct{})
+	var wg sync.WaitGroup
+	for _, j := range jobs {
+		wg.Add(1)
+		go func() {
+			defer wg.Done()
+			defer func() {
+				if r := recover(); r != nil {
+					j.err = fmt.Errorf("PANIC: %v", r)
+				}
+			}()
+			<-start
+			cs, err := buildCS(j.mode, j.depth, j.batch)
+			if err != nil {
+				j.err = err
+				return
+			}
+			j.got = csHash(cs)
+			j.pub = cs.GetNbPublicVariables()
+		}()
+	}
+	close(start)
+	wg.Wait()
+	x.S.Count("fault:schedule/overlapping-builds-in-one-process")
+	for _, j := range jobs {
+		key := fmt.Sprintf("%s/d%d/b%d", j.mode, j.depth, j.batch)
+		x.S.Eval(1)
+		x.S.Seen(key + "/overlapping-build")
+		x.Log.Addf("C", "overlapping-build", "%s same=%v", key, j.got == j.ref)
+		if j.err != nil {
+			return engine.Violatef("C12/overlapping-builds/build-fails", "%s built while %d other builds were running in the same process: %v (alone it builds)", key, n-1, j.err)
+		}
+		if j.got != j.ref {
+			return engine.Violatef("C12/overlapping-builds/constraint-system-differs", "%s built while %d other builds were running in the same process hashes to %s; built alone, earlier in the same process, %s", key, n-1, j.got[:16], j.ref[:16])
+		}
+		if j.pub != 2 {
+			return engine.Violatef("C12/not-exactly-one-public-input", "%s (overlapping build): %d public variables besides the constant wire", key, j.pub-1)
+		}
 	}
 	return nil
 }
